@@ -310,3 +310,25 @@ func C03_Ref_Gen() {
 	nd.Assert(v == RefComplete && end == len(src), "the recogniser accepts every generated derivation")
 	nd.Assert(err == nil && s.I == len(src), "the parser accepts every generated derivation")
 }
+
+// C03_Prefix / C02_Prefix: every prefix of every template, error template and
+// here-document site (programs cut off in the middle of a construct), the
+// recogniser being the oracle in both directions.
+func prefixSource() []rune {
+	var all []string
+	all = append(all, Templates...)
+	all = append(all, ErrTemplates...)
+	for _, st := range c08Sites {
+		text := st.line
+		for i := range st.ops {
+			text += "x $y\n" + st.delims[i] + "\n"
+		}
+		all = append(all, text+st.tail)
+	}
+	t := []rune(all[nd.Choice(len(all))])
+	k := nd.Choice(len(t) + 1)
+	return t[:k]
+}
+
+func C03_Prefix() { c03Ref(prefixSource(), 3) }
+func C02_Prefix() { c03Ref(prefixSource(), 2) }
